@@ -1,4 +1,5 @@
 // @unit crate=fibre file=channels/src/internal/unsynchronized_ring.rs
+// @needs fibre/stubs.rs
 // Contracts and proof harnesses for channels/src/internal/unsynchronized_ring.rs
 // Injected as `#[cfg(kani)] mod verif_k;` child of that module (reads private fields).
 //
@@ -138,15 +139,7 @@ fn step_pop(cap0: usize) {
   kani::cover!(true);
 }
 
-// Drop-counting payload for C09.
-pub(crate) static mut DROPS: [u8; 8] = [0; 8];
-pub(crate) struct D(pub u8);
-impl Drop for D {
-  fn drop(&mut self) {
-    unsafe { DROPS[self.0 as usize] += 1; }
-  }
-}
-pub(crate) fn drops(i: usize) -> u8 { unsafe { DROPS[i] } }
+use crate::verif_k_stubs::{D, drops};
 
 /// Arbitrary well-formed ring holding D(0..len) values.
 fn any_ring_d(cap: usize) -> (UnsynchronizedRingBuffer<D>, usize) {
